@@ -153,6 +153,29 @@ package hcl
 //@ trusted
 //@ assigns nothing
 
+// ---- the text diagnostic writer shows no marked content (unit U18b, C19) ----
+// verif:unit U18b props=C19
+// The "with x as ..." lines of a rendered diagnostic describe values of the evaluation scope. A
+// value may be described (valueStr prints strings, numbers and attribute names) only if it carries
+// no marks and nobody has stripped marks off it first: unmarking does not launder.
+// Assumed: the value a traversal finds in the scope is as marked as the scope made it (TraverseAbs
+// and the steps under it re-apply the marks they take off); index keys inside the traversal of a
+// variable reference are literals of the source text.
+// verif:func (Traversal).TraverseAbs
+//@ trusted
+//@ assigns nothing
+//@ ensures !laundered(ret0)
+// verif:func (*diagnosticTextWriter).valueStr
+//@ nosafety
+//@ requires shown: (forall k iface :: { marked(val, k) } !marked(val, k)) && !laundered(val)
+// verif:func (*diagnosticTextWriter).traversalStr
+//@ nosafety
+//@ assumepre
+// verif:func (*diagnosticTextWriter).WriteDiagnostic
+//@ nosafety
+//@ assumepre PartitionAround SliceBytes
+// verif:unit U10b props=C04
+
 // Static analysis helpers only inspect the expression (assumed frames; bodies not verified).
 // verif:func AbsTraversalForExpr
 //@ trusted
